@@ -3,11 +3,27 @@
 // contexts, depth/bridged/unused flags, variables, init expressions, objectives, solution-check options) and of the
 // arguments / outcome of the real SolutionChecker::CheckSolution call.  The check itself is the unmodified library code.
 //
-// The recording driver's own model-manager TU is included textually (it also defines helper functions used by
-// recbackend.cc, e.g. the link dumps of C19/C20); only its factory function is renamed and replaced below.
-#define CreateRecModelMgr CreateRecModelMgr_plain_unused
-#include "recmodelmgr.cc"
-#undef CreateRecModelMgr
+// This TU REPLACES the recording driver's own model-manager TU (harness/recsolver/recmodelmgr.cc): it defines the factory
+// CreateRecModelMgr with the C07 converter, and no-op versions of the three observation helpers of other properties that
+// recbackend.cc links against (link dumps of C04/C19/C20; active only under RECSOLVER_LINKS / the C04 switches, which the
+// C07 check never sets).  It does NOT include recmodelmgr.cc any more: that instantiated a second complete converter
+// (twice the compile time) and made every unrelated change to recmodelmgr.cc / rec_c04_impl.h rebuild this harness.
+#include "mp/model-mgr-with-std-pb.hpp"
+#include "mp/flat/redef/MIP/converter_mip.h"
+#include "mp/flat/model_api_connect.h"
+#include "recmodelapi.h"
+#include "recjson.h"
+#include <functional>
+
+namespace mp {
+void RecLogFinalLinks(pre::BasicValuePresolver &, RecState &st) { st.Log("{\"ev\":\"link_final_unavailable\"}"); }
+void RecDumpLinks(pre::BasicValuePresolver &) {}
+}  // namespace mp
+namespace rec_c04 {
+std::string DumpLinkGraph(mp::pre::BasicValuePresolver &, const std::function<std::string(bool, int)> &) {
+  return "{\"ev\":\"linkgraph_unavailable\"}";
+}
+}  // namespace rec_c04
 
 namespace mp {
 
